@@ -1,6 +1,325 @@
-//! C14: not implemented yet.
+//! C14: reserved-size padding.  Modes (case["mode"]):
+//!  synth      {sig, kid, rest:[[label,value]..], end|null}        -> pad_cose_sig (hook) on a coset-built Sign1
+//!  real_sweep {alg, tss, gaps:[[from,to]..]}                      -> pad_cose_sig (hook) on the Sign1 produced by the
+//!                                                                    real signer, one call per gap, run-length encoded
+//!  sign       {alg, tss, gap}                                     -> cose_sign::cose_sign (hook) with box = base + gap
+//!  e2e        {alg, gap}                                          -> Builder::sign with a Signer reporting base + gap
+//!  data       {name, alg, hash, excl, pad0, pad2, delta}          -> DataHash::pad_to_size (public)
+//! label: {"t": text} | {"i": int};  value: {"b": n zero bytes} | {"t": n chars} | {"i": int}
+use std::{
+    collections::HashMap,
+    panic::{catch_unwind, AssertUnwindSafe},
+    sync::Mutex,
+};
+
+use c2pa::{
+    assertions::DataHash,
+    crypto::cose::{CoseError, TimeStampStorage},
+    settings::Settings,
+    verif_hooks::c14::{
+        coset::{
+            cbor::value::Value as CV, CoseSign1, CoseSign1Builder, HeaderBuilder, Label,
+            TaggedCborSerializable,
+        },
+        verif_cose_sign, verif_data_hash_size, verif_pad_cose_sig,
+    },
+    HashRange, Signer, SigningAlg,
+};
 use serde_json::{json, Value};
 
-pub fn run(_case: &Value) -> Value {
-    json!({"r": "unimplemented"})
+use crate::{e2e, util::*};
+
+fn cose_err(e: &CoseError) -> String {
+    let d = format!("{:?}", e);
+    let end = d.find(|c: char| !(c.is_alphanumeric() || c == '_')).unwrap_or(d.len());
+    d[..end].to_string()
+}
+
+fn label_of(v: &Value) -> Label {
+    if let Some(t) = v.get("t") {
+        Label::Text(t.as_str().expect("label text").to_string())
+    } else {
+        Label::Int(v["i"].as_i64().expect("label int"))
+    }
+}
+
+fn value_of(v: &Value) -> CV {
+    if let Some(n) = v.get("b") {
+        CV::Bytes(vec![0u8; n.as_u64().expect("b") as usize])
+    } else if let Some(n) = v.get("t") {
+        CV::Text("a".repeat(n.as_u64().expect("t") as usize))
+    } else {
+        CV::Integer(v["i"].as_i64().expect("i").into())
+    }
+}
+
+fn rest_summary(s: &CoseSign1) -> Vec<Value> {
+    s.unprotected
+        .rest
+        .iter()
+        .map(|(l, v)| {
+            let l = match l {
+                Label::Text(t) => json!({"t": t}),
+                Label::Int(i) => json!({"i": i}),
+            };
+            let v = match v {
+                CV::Bytes(b) => json!({"b": b.len()}),
+                CV::Text(t) => json!({"t": t.len()}),
+                other => {
+                    let mut buf = Vec::new();
+                    c2pa::verif_hooks::c14::coset::cbor::ser::into_writer(other, &mut buf).expect("cbor");
+                    json!({"o": buf.len()})
+                }
+            };
+            json!([l, v])
+        })
+        .collect()
+}
+
+fn pad_outcome(s: &CoseSign1, end: Option<usize>, detail: bool) -> Value {
+    let mut s1 = s.clone();
+    let r = catch_unwind(AssertUnwindSafe(|| verif_pad_cose_sig(&mut s1, end)));
+    match r {
+        Err(_) => json!({"r": "panic"}),
+        Ok(Err(e)) => json!({"r": "err", "kind": cose_err(&e)}),
+        Ok(Ok(v)) => {
+            if detail {
+                match CoseSign1::from_tagged_slice(&v) {
+                    Ok(p) => json!({"r": "ok", "len": v.len(), "rest": rest_summary(&p),
+                                    "same_sig": p.signature == s.signature && p.protected.header == s.protected.header}),
+                    Err(e) => json!({"r": "ok", "len": v.len(), "unparsable": format!("{e:?}")}),
+                }
+            } else {
+                json!({"r": "ok", "len": v.len()})
+            }
+        }
+    }
+}
+
+fn synth(case: &Value) -> Value {
+    let sig = case["sig"].as_u64().unwrap_or(64) as usize;
+    let kid = case["kid"].as_u64().unwrap_or(0) as usize;
+    let protected = HeaderBuilder::new()
+        .algorithm(c2pa::verif_hooks::c14::coset::iana::Algorithm::ES256)
+        .build();
+    let mk = |with_rest: bool| {
+        let mut h = HeaderBuilder::new();
+        if kid > 0 {
+            h = h.key_id(vec![7u8; kid]);
+        }
+        let mut h = h.build();
+        if with_rest {
+            for e in case["rest"].as_array().expect("rest") {
+                h.rest.push((label_of(&e[0]), value_of(&e[1])));
+            }
+        }
+        CoseSign1Builder::new()
+            .protected(protected.clone())
+            .unprotected(h)
+            .signature(vec![0x5a; sig])
+            .build()
+    };
+    let s = mk(true);
+    let size0 = s.clone().to_tagged_vec().ok().map(|v| v.len());
+    let size_norest = mk(false).to_tagged_vec().expect("norest").len();
+    let end = case["end"].as_u64().map(|e| e as usize);
+    let mut out = pad_outcome(&s, end, true);
+    out["size0"] = json!(size0);
+    out["size_norest"] = json!(size_norest);
+    out
+}
+
+fn tss_of(case: &Value) -> TimeStampStorage {
+    if case["tss"].as_u64() == Some(1) {
+        TimeStampStorage::V1_sigTst
+    } else {
+        TimeStampStorage::V2_sigTst2_CTT
+    }
+}
+
+const PAYLOAD: &[u8] = b"verif C14 detached payload";
+
+/// The unpadded Sign1 of the real signer: sign with a box in the succeeding range, parse, drop the pad.
+fn real_base(alg: &str, tss: TimeStampStorage) -> Result<(CoseSign1, usize, usize), String> {
+    static CACHE: Mutex<Option<HashMap<String, (Vec<u8>, usize, usize)>>> = Mutex::new(None);
+    let key = format!("{alg}-{tss:?}");
+    if let Some((bytes, base, probe)) = CACHE.lock().expect("lock").get_or_insert_with(HashMap::new).get(&key) {
+        return Ok((CoseSign1::from_tagged_slice(bytes).expect("cached"), *base, *probe));
+    }
+    let signer = e2e::signer(alg);
+    let settings = Settings::default();
+    let mut last = String::new();
+    for probe in [20000usize, 40000, 60000] {
+        match verif_cose_sign(signer.as_ref(), PAYLOAD, probe, tss, &settings) {
+            Ok(v) => {
+                let mut s = CoseSign1::from_tagged_slice(&v).map_err(|e| format!("parse: {e:?}"))?;
+                s.unprotected.rest.retain(|(l, _)| *l != Label::Text("pad".to_string()));
+                let bytes = s.clone().to_tagged_vec().map_err(|e| format!("ser: {e:?}"))?;
+                let base = bytes.len();
+                CACHE.lock().expect("lock").get_or_insert_with(HashMap::new).insert(key, (bytes, base, probe));
+                return Ok((s, base, probe));
+            }
+            Err(e) => last = format!("{e:?}"),
+        }
+    }
+    Err(last)
+}
+
+fn describe(s: &CoseSign1, base: usize) -> Value {
+    let mut s0 = s.clone();
+    s0.unprotected.rest.clear();
+    let norest = s0.to_tagged_vec().expect("norest").len();
+    let h = &s.unprotected;
+    let nfields = h.alg.is_some() as usize
+        + (!h.crit.is_empty()) as usize
+        + h.content_type.is_some() as usize
+        + (!h.key_id.is_empty()) as usize
+        + (!h.iv.is_empty()) as usize
+        + (!h.partial_iv.is_empty()) as usize
+        + (!h.counter_signatures.is_empty()) as usize;
+    json!({"base": base, "size_norest": norest, "nfields": nfields, "rest": rest_summary(s), "sig": s.signature.len()})
+}
+
+fn real_sweep(case: &Value) -> Value {
+    let alg = case["alg"].as_str().unwrap_or("ed25519");
+    let (s, base, _) = match real_base(alg, tss_of(case)) {
+        Ok(x) => x,
+        Err(e) => return json!({"r": "nobase", "detail": e}),
+    };
+    let mut runs: Vec<(i64, i64, String)> = Vec::new();
+    let mut n = 0u64;
+    for rg in case["gaps"].as_array().expect("gaps") {
+        let (a, b) = (rg[0].as_i64().expect("from"), rg[1].as_i64().expect("to"));
+        for g in a..=b {
+            let end = base as i64 + g;
+            if end < 0 {
+                continue;
+            }
+            let o = pad_outcome(&s, Some(end as usize), false);
+            let code = match o["r"].as_str() {
+                Some("ok") if o["len"].as_u64() == Some(end as u64) => "ok".to_string(),
+                Some("ok") => format!("ok-badlen:{}", o["len"]),
+                Some("err") => format!("err:{}", o["kind"].as_str().unwrap_or("?")),
+                _ => "panic".to_string(),
+            };
+            n += 1;
+            match runs.last_mut() {
+                Some((_, hi, c)) if *c == code && *hi + 1 == g => *hi = g,
+                _ => runs.push((g, g, code)),
+            }
+        }
+    }
+    let runs: Vec<Value> = runs.into_iter().map(|(a, b, c)| json!([a, b, c])).collect();
+    json!({"r": "sweep", "desc": describe(&s, base), "runs": runs, "calls": n})
+}
+
+fn sign_mode(case: &Value) -> Value {
+    let alg = case["alg"].as_str().unwrap_or("ed25519");
+    let tss = tss_of(case);
+    let (s, base, _) = match real_base(alg, tss) {
+        Ok(x) => x,
+        Err(e) => return json!({"r": "nobase", "detail": e}),
+    };
+    let end = base as i64 + case["gap"].as_i64().expect("gap");
+    let signer = e2e::signer(alg);
+    let mut out = match verif_cose_sign(signer.as_ref(), PAYLOAD, end.max(0) as usize, tss, &Settings::default()) {
+        Ok(v) => json!({"r": "ok", "len": v.len()}),
+        Err(e) => json!({"r": "err", "kind": err_class(&e)}),
+    };
+    out["desc"] = describe(&s, base);
+    out["end"] = json!(end);
+    out
+}
+
+struct ReserveSigner {
+    inner: Box<dyn Signer>,
+    reserve: usize,
+}
+
+impl Signer for ReserveSigner {
+    fn sign(&self, data: &[u8]) -> c2pa::Result<Vec<u8>> {
+        self.inner.sign(data)
+    }
+
+    fn alg(&self) -> SigningAlg {
+        self.inner.alg()
+    }
+
+    fn certs(&self) -> c2pa::Result<Vec<Vec<u8>>> {
+        self.inner.certs()
+    }
+
+    fn reserve_size(&self) -> usize {
+        self.reserve
+    }
+}
+
+fn e2e_mode(case: &Value) -> Value {
+    let alg = case["alg"].as_str().unwrap_or("ed25519");
+    let (s, base, _) = match real_base(alg, TimeStampStorage::V2_sigTst2_CTT) {
+        Ok(x) => x,
+        Err(e) => return json!({"r": "nobase", "detail": e}),
+    };
+    let end = (base as i64 + case["gap"].as_i64().expect("gap")).max(0) as usize;
+    let signer = ReserveSigner { inner: e2e::signer(alg), reserve: end };
+    let src = e2e::fixture(case["fixture"].as_str().unwrap_or("earth_apollo17.jpg"));
+    let fmt = case["format"].as_str().unwrap_or("image/jpeg");
+    let mut out = match e2e::sign(e2e::context(None), &e2e::minimal_manifest("c14"), fmt, &src, &signer) {
+        Ok(bytes) => match e2e::read(e2e::context(None), fmt, &bytes) {
+            Ok(r) => {
+                let rep = e2e::report(&r);
+                json!({"r": "ok", "state": rep["state"], "failure": rep["failure"], "grown": bytes.len() - src.len()})
+            }
+            Err(e) => json!({"r": "readerr", "kind": err_class(&e)}),
+        },
+        Err(e) => json!({"r": "err", "kind": err_class(&e), "detail": e.to_string()}),
+    };
+    out["desc"] = describe(&s, base);
+    out["end"] = json!(end);
+    out
+}
+
+fn data_mode(case: &Value) -> Value {
+    let mk = |pad0: usize, pad2: Option<usize>| {
+        let mut dh = DataHash::new(case["name"].as_str().unwrap_or("jumbf manifest"), case["alg"].as_str().unwrap_or("sha256"));
+        if let Some(ex) = case["excl"].as_array() {
+            for e in ex {
+                dh.add_exclusion(HashRange::new(u64_of(&e[0]), u64_of(&e[1])));
+            }
+        }
+        dh.set_hash(vec![0x11; case["hash"].as_u64().unwrap_or(32) as usize]);
+        dh.add_padding(vec![0u8; pad0]);
+        // pad2 is a public field of type Option<serde_bytes::ByteBuf>; build it without naming the crate
+        if let Some(n) = pad2 {
+            dh.pad2 = Some(vec![0u8; n].into());
+        }
+        dh
+    };
+    let pad0 = case["pad0"].as_u64().unwrap_or(0) as usize;
+    let pad2 = case["pad2"].as_u64().map(|n| n as usize);
+    let size_fresh = verif_data_hash_size(&mk(0, None)).expect("size");
+    let mut dh = mk(pad0, pad2);
+    let size0 = verif_data_hash_size(&dh).expect("size");
+    let desired = (size0 as i64 + case["delta"].as_i64().expect("delta")).max(0) as usize;
+    let r = dh.pad_to_size(desired);
+    let mut out = match r {
+        Ok(()) => json!({"r": "ok", "len": verif_data_hash_size(&dh).expect("size"),
+                         "pad": dh.pad.len(), "pad2": dh.pad2.as_ref().map(|p| p.len())}),
+        Err(e) => json!({"r": "err", "kind": err_class(&e)}),
+    };
+    out["size0"] = json!(size0);
+    out["size_fresh"] = json!(size_fresh);
+    out["desired"] = json!(desired);
+    out
+}
+
+pub fn run(case: &Value) -> Value {
+    match case["mode"].as_str().unwrap_or("") {
+        "synth" => synth(case),
+        "real_sweep" => real_sweep(case),
+        "sign" => sign_mode(case),
+        "e2e" => e2e_mode(case),
+        "data" => data_mode(case),
+        m => json!({"r": "badmode", "mode": m}),
+    }
 }
